@@ -77,7 +77,11 @@ def make_source(c):
     for f in order:
         setattr(src, f, vals[f])
     if form == "reuse":
-        for f, bad in (("purity", 0.3), ("brightness", 1.5), ("indistinguishability", "x"), ("probability_threshold", -1)):
+        # refused on either side of each range and for a wrong type (bool is not a number here): a refused
+        # assignment must leave nothing behind - the statistics below are those of the values the object reports
+        for f, bad in (("purity", 0.3), ("purity", 1.1), ("purity", True), ("brightness", 1.5), ("brightness", -0.1),
+                       ("brightness", True), ("indistinguishability", "x"), ("indistinguishability", 1.5),
+                       ("indistinguishability", -0.2), ("probability_threshold", -1), ("probability_threshold", "y")):
             try:
                 setattr(src, f, bad)
             except (ValueError, TypeError):
@@ -372,7 +376,7 @@ class C06:
                      backend=rng.choice(["permanent", "slos"]))
             c["thr"] = q(self._threshold(rng, c, full_input(circ, st)))
             c.update(sform=rng.choice(["ctor", "setters", "reuse"]), sorder=rng.randrange(4), ints=rng.random() < 0.5,
-                     shist=rng.choice([None, "late", "attr", "twice", "shared", "late", "attr"]))
+                     shist=rng.choice([None, "late", "attr", "twice", "shared", "late", "attr", "moved", "moved"]))
             cases.append(c)
         # (c') single-mode circuits: every photon is bunched in the one mode; phase and loss only
         for k in range(12 if quick else 200):
@@ -381,7 +385,7 @@ class C06:
             c = dict(kind="sampler", nu=q(nu), pi=q(pi), p2=q(p2), thr=[0, 1], st=[rng.choice([0, 1, 2, 2, 3 if p2 == 0 else 2])],
                      circ=dict(n=1, ops=ops, heralds=[]), backend=rng.choice(["permanent", "slos"]),
                      sform=rng.choice(["ctor", "setters", "reuse"]), sorder=rng.randrange(4), ints=rng.random() < 0.5,
-                     shist=rng.choice([None, "late", "attr", "twice", "shared"]))
+                     shist=rng.choice([None, "late", "attr", "twice", "shared", "moved"]))
             cases.append(c)
         # (d) _remap_distribution on arbitrary labelled dictionaries
         for _ in range(60 if quick else 1500):
@@ -478,6 +482,19 @@ class C06:
                     except Exception:  # noqa: BLE001
                         pass
                     smp = em.Sampler(ctx.circ, st, source=src, backend=c["backend"])
+                elif hist == "moved" and c["circ"]["heralds"]:
+                    # the Sampler first serves a twin circuit (same components, same number of input modes) whose
+                    # herald sits on ANOTHER mode / carries another photon number, then gets the case's circuit
+                    spec2 = copy.deepcopy(c["circ"])
+                    m0, k0 = spec2["heralds"][0]
+                    free = [m for m in range(spec2["n"]) if m not in [h[0] for h in spec2["heralds"]]]
+                    spec2["heralds"][0] = [free[0] if free else m0, k0 if free else 1 - min(k0, 1)]
+                    smp = em.Sampler(build_circuit(spec2), st, source=src, backend=c["backend"])
+                    try:
+                        smp.probability_distribution  # noqa: B018
+                    except Exception:  # noqa: BLE001
+                        pass
+                    smp.circuit = ctx.circ
                 else:
                     smp = em.Sampler(ctx.circ, st, source=src, backend=c["backend"])
                 if hist == "twice":
